@@ -37,6 +37,7 @@ def quadEnv (Q : Array FV) (b : FV) (c : Float) (g : String) (gw : Float) : Env 
   add := vzip (· + ·)
   sub := vzip (· - ·)
   smul := fun a v => v.map (a * ·)
+  sdiv := fun v c => v.map (· / c)
   reInner := vdot
   norm := fun v => Float.sqrt (vdot v v)
 
